@@ -152,7 +152,67 @@ def emit_sesame(t):
     return L
 
 
-EXTRACTORS = [(extract_sesame, emit_sesame)]
+def lean_str_pairs(name, val):
+    ty = "Option (List (String × String))"
+    if val is None:
+        return f"def {name} : {ty} := none"
+    rows = ", ".join(f'("{a}", "{b}")' for a, b in val)
+    return f"def {name} : {ty} := some [{rows}]"
+
+
+def module_dict_of_names(path, varname):
+    """a module-level `VAR = {"key": value, ...}` -> sorted list of (key, rendered value)"""
+    with open(path) as f:
+        tree = ast.parse(f.read())
+    for node in tree.body:
+        if isinstance(node, ast.Assign) and len(node.targets) == 1 and ast.unparse(node.targets[0]) == varname \
+                and isinstance(node.value, ast.Dict):
+            out = []
+            for k, v in zip(node.value.keys, node.value.values):
+                if not (isinstance(k, ast.Constant) and isinstance(k.value, str)):
+                    return None
+                out.append((k.value, v.value if isinstance(v, ast.Constant) and isinstance(v.value, str) else ast.unparse(v)))
+            return sorted(out)
+    return None
+
+
+def extract_stats(repo):
+    out = dict(distributionMap=None, fdwraLimits=None, fdwraAcceptOps=None)
+    try:
+        out["distributionMap"] = module_dict_of_names(os.path.join(repo, "hvsrpy", "constants.py"), "DISTRIBUTION_MAP")
+    except Exception:
+        pass
+    try:
+        with open(os.path.join(repo, "hvsrpy", "window_rejection.py")) as f:
+            tree = ast.parse(f.read())
+        fn = func_source(tree, "_frequency_domain_window_rejection")
+        src = ast.unparse(fn)
+        g = grab(src, r"d_diff " + CMP + " " + NUM + r" and s_diff " + CMP + " " + NUM)
+        if g:
+            out["fdwraLimits"] = ((OPS[g[0]], dec_pair(g[1])), (OPS[g[2]], dec_pair(g[3])))
+        g = grab(src, r"c_peak " + CMP + r" lower_bound and c_peak " + CMP + r" upper_bound")
+        if g:
+            out["fdwraAcceptOps"] = (OPS[g[0]], OPS[g[1]])
+    except Exception:
+        pass
+    return out
+
+
+def emit_stats(t):
+    L = [lean_str_pairs("distributionMap", t["distributionMap"])]
+    if t["fdwraLimits"] is None:
+        L.append("def fdwraLimits : Option ((Nat × (Nat × Nat)) × (Nat × (Nat × Nat))) := none")
+    else:
+        (o1, p1), (o2, p2) = t["fdwraLimits"]
+        L.append(f"def fdwraLimits : Option ((Nat × (Nat × Nat)) × (Nat × (Nat × Nat))) := some (({o1}, {lean_pair(p1)}), ({o2}, {lean_pair(p2)}))")
+    if t["fdwraAcceptOps"] is None:
+        L.append("def fdwraAcceptOps : Option (Nat × Nat) := none")
+    else:
+        L.append(f"def fdwraAcceptOps : Option (Nat × Nat) := some ({t['fdwraAcceptOps'][0]}, {t['fdwraAcceptOps'][1]})")
+    return L
+
+
+EXTRACTORS = [(extract_sesame, emit_sesame), (extract_stats, emit_stats)]
 
 
 def extract(repo):
